@@ -102,7 +102,7 @@ var (
 	docs     = map[string][]byte{}
 	deadline = 20 * time.Second
 	raceLog  string
-	raceSeen int
+	raceOff  int
 )
 
 // emit writes one trace line unbuffered (a stuck scenario must not lose what was observed before it).
@@ -353,20 +353,19 @@ func raceDelta() (int, string) {
 		return 0, ""
 	}
 	b, err := os.ReadFile(raceLog + "." + strconv.Itoa(os.Getpid()))
-	if err != nil {
+	if err != nil || len(b) <= raceOff {
 		return 0, ""
 	}
-	n := bytes.Count(b, []byte("WARNING: DATA RACE"))
-	d := n - raceSeen
-	raceSeen = n
-	if d <= 0 {
+	fresh := b[raceOff:] // what the detector wrote during this scenario
+	raceOff = len(b)
+	n := bytes.Count(fresh, []byte("WARNING: DATA RACE"))
+	if n == 0 {
 		return 0, ""
 	}
-	s := string(b)
-	if len(s) > 6000 {
-		s = s[len(s)-6000:]
+	if len(fresh) > 12000 {
+		fresh = fresh[:12000] // the first reports, complete with both stacks
 	}
-	return d, s
+	return n, string(fresh)
 }
 
 func endLine(sc *Scenario, before, after string, note string) {
